@@ -83,8 +83,9 @@ def iter_rule(R, fi, var, prefix):
         if u1 in rebinds and u1 in mat:
             continue  # after `x = list(x)` the binding is a list
         starts = [e.dst for e in cfg.out_edges(u1.id, N)]
-        # a later use of the same (possibly one-shot) binding
-        others = [u for u in uses]
+        # a later use of the same (possibly one-shot) binding; a `for` statement iterates once however
+        # often its body runs, so its own back edge is not a second iteration
+        others = [u for u in uses if not (u is u1 and u1.kind == "for")]
         cut = [r for r in rebinds if r not in others]
         p = cfg.find_path(starts, others, N, cut_nodes=cut, keep_edge=keep)
         # reaching a rebinding use (x = list(x)) after having iterated x is also a second iteration
@@ -131,13 +132,12 @@ def run(R):
                     v = y.value
                     ok = False
                     why = q.src(v)[:60] if v is not None else "nothing"
-                    if isinstance(v, ast.ListComp) and len(v.generators) == 1 and not v.generators[0].ifs:
-                        el = v.elt
-                        tgt = v.generators[0].target
-                        ok = isinstance(el, ast.Call) and (q.call_name(el) or "").endswith(".asynq") and isinstance(tgt, ast.Name) and \
-                            [q.src(a) for a in el.args] == [tgt.id]
-                    elif isinstance(v, ast.Call) and q.call_name(v) == "amap.asynq" and len(v.args) == 2:
+                    comp = kit.as_comprehension(f.node, v) if v is not None else None
+                    if isinstance(v, ast.Call) and q.call_name(v) == "amap.asynq" and len(v.args) == 2:
                         ok = True
+                    elif comp is not None and not comp[3]:
+                        el, tgt = comp[0], comp[1]
+                        ok = isinstance(el, ast.Call) and (q.call_name(el) or "").endswith(".asynq") and [q.src(a) for a in el.args] == [tgt]
                     R.check(ok, "C14.ONE-YIELD", f.qualname + ":operand", R.site(f, y),
                             "the yield's operand is the list of all per-element tasks (or amap.asynq over all elements)",
                             "the yield's operand `%s` does not issue one task per element, unfiltered, in one list" % why)
@@ -215,7 +215,13 @@ def run(R):
         R.check(len(pairs) == 1, "C14.TIE", f.qualname + ":returns", R.site(f), "the element (not the index) of the winning pair is returned", "returns %s" % rets)
         # varargs handling: 0 args TypeError, 1 arg -> iterable, else args
         iv = common.assigned_values(f.node, "iterable")
-        srcs = sorted(q.src(v) for k, v in iv if k == "expr")
+        flat = []
+        for k, v in iv:
+            if k == "expr" and isinstance(v, ast.IfExp):
+                flat += [("expr", v.body), ("expr", v.orelse)]
+            else:
+                flat.append((k, v))
+        srcs = sorted(q.src(v) for k, v in flat if k == "expr")
         R.check(srcs[:2] == ["args", "args[0]"], "C14.TIE", f.qualname + ":varargs", R.site(f),
                 "one positional argument is the iterable, several are the elements", "argument handling differs from %s: iterable is %s" % (builtin, srcs))
     # ---- afilter / afilterfalse / asift use the same materialised sequence for calls and selection
@@ -225,7 +231,10 @@ def run(R):
         R.check(len(cc) == 1 and q.src(cc[0].args[0]) == "sequence", "C14.FILTER", f.qualname, R.site(f),
                 "%s selects from the same (materialised) sequence the predicate was applied to" % h, "%s does not select from the sequence the predicate ran on" % h)
         if negate:
-            neg = [n for n in ast.walk(f.node) if isinstance(n, ast.ListComp) and isinstance(n.elt, ast.UnaryOp) and isinstance(n.elt.op, ast.Not)]
+            sel = cc[0].args[1] if cc else None
+            vals = [v for k, v in common.assigned_values(f.node, sel.id)] if isinstance(sel, ast.Name) else []
+            comp = kit.as_comprehension(f.node, vals[0] if len(vals) == 1 and not (isinstance(vals[0], ast.List) and not vals[0].elts) else sel) if sel is not None else None
+            neg = [1] if comp is not None and not comp[3] and isinstance(comp[0], ast.UnaryOp) and isinstance(comp[0].op, ast.Not) and q.src(comp[0].operand) == comp[1] else []
             R.check(len(neg) == 1 and q.src(cc[0].args[1]) == "should_include", "C14.FILTER", f.qualname + ":negate", R.site(f),
                     "afilterfalse keeps the elements whose predicate is false", "afilterfalse does not negate the predicate results")
         else:
